@@ -17,6 +17,7 @@ func init() {
 			ruleCountLoop(c)
 			ruleJSONWalkerOut(c)
 			ruleClearJSON(c)
+			ruleLeadCountEmpty(c)
 			ruleTightGuards(c, decodeBound(c.P), func(n string) bool { return strings.Contains(n, "JSON") })
 			c.Floor("X.tightguard", 8)
 			ruleRejects(c, decodeBound(c.P), func(n string) bool { return strings.Contains(n, "JSON") })
